@@ -67,6 +67,28 @@ fn run(cmd: &Value) -> Value {
                 Err(ds) => json!({"ok": false, "diagnostics": ds.iter().map(diag).collect::<Vec<_>>()}),
             }
         }
+        "visit_ids" => {
+            // the identifiers a plain Visitor reaches when it walks the parsed library with the trait's default methods
+            use ironplc_dsl::core::Id;
+            use ironplc_dsl::visitor::Visitor;
+            struct Collector(Vec<String>);
+            impl Visitor<()> for Collector {
+                type Value = ();
+                fn visit_id(&mut self, node: &Id) -> Result<(), ()> {
+                    self.0.push(node.original().to_string());
+                    Ok(())
+                }
+            }
+            let src = cmd["source"].as_str().unwrap();
+            match ironplc_parser::parse_program(src, &FileId::from_string("f.st"), &ParseOptions::default()) {
+                Ok(lib) => {
+                    let mut c = Collector(vec![]);
+                    let r = c.walk(&lib);
+                    json!({"ok": true, "walk_ok": r.is_ok(), "ids": c.0})
+                }
+                Err(d) => json!({"ok": false, "diag": diag(&d)}),
+            }
+        }
         "render" => {
             let src = cmd["source"].as_str().unwrap();
             match ironplc_parser::parse_program(src, &FileId::from_string("f.st"), &ParseOptions::default()) {
